@@ -202,6 +202,8 @@ def generate(run_seed, tier='quick'):
         D = int(rng.randint(2, 9))
     if rng.randint(25) == 0:
         K = int(_choice(rng, [5, 6, 7]))
+    if rng.randint(25) == 0:
+        D = int(rng.randint(9, 13))          # more than 8 channels / features
     if kind == 'gcacgmm':
         F = int(rng.randint(1, 4))
     elif kind == 'gmm':
@@ -213,6 +215,9 @@ def generate(run_seed, tier='quick'):
     opts = _gen_opts(rng, kind, F)
     if kind == 'gmm' and opts['covariance_type'] == 'full' and rng.randint(2):
         F = int(rng.randint(1, 4))     # only 'full' supports leading axes
+        if rng.randint(30) == 0:
+            F = int(rng.randint(44, 72))    # more than 128 covariance matrices
+            D = min(D, 3)
         opts = dict(opts, weight_constant_axis=_gen_opts(rng, 'cacgmm', F)['weight_constant_axis'])
     N = 4 * K * max(D, E if kind == 'gcacgmm' else 0) + int(rng.randint(0, 30))
     if rng.randint(12) == 0:
@@ -264,7 +269,18 @@ def generate(run_seed, tier='quick'):
                                  + ([{'max_concentration': 700}] if D <= 7 else []))
     if many_channels:
         trainer_kwargs = {}
-    many_frames = kind in ('cacgmm', 'gcacgmm') and rng.randint(150) == 0
+    many_posteriors = kind == 'cacgmm' and rng.randint(1500) == 0
+    if many_posteriors:
+        # more than 2**22 posteriors in one call
+        K, D, F = 2, 2, 16
+        N = int(2 ** 22 // (K * F) + rng.randint(100, 5000))
+        opts = _gen_opts(rng, kind, F)
+        specs = _data_specs(rng, kind, K, D, F, N, E)
+        specs['obs']['layout'] = 'C'
+        specs['init']['kind'] = 'affiliation'
+        n = int(rng.randint(1, 3))
+    many_frames = kind in ('cacgmm', 'gcacgmm') and not many_posteriors \
+        and rng.randint(150) == 0
     if many_frames:
         # long recordings (size-dependent code paths of the cACG update)
         K, D, E = 2, int(_choice(rng, [2, 3, 4])), 2
@@ -275,14 +291,14 @@ def generate(run_seed, tier='quick'):
         n = int(rng.randint(3, 9))
     ops = []
     # earlier history on the shared trainer
-    for _ in range(0 if (many_channels or many_frames) else int(_choice(rng, [0, 0, 1, 2, 3, 5]))):
+    for _ in range(0 if (many_channels or many_frames or many_posteriors) else int(_choice(rng, [0, 0, 1, 2, 3, 5]))):
         if rng.randint(4) == 0:
             ops.append({'op': 'draws', 'k': int(rng.randint(1, 50))})
         else:
             ops.append(_foreign_fit(rng, kind, D, F, E,
                                     same_dim=bool(rng.randint(4)),
                                     same_shape=(K, N, F)))
-    if kind == 'cacgmm' and rng.randint(3):
+    if kind == 'cacgmm' and rng.randint(3) and not many_posteriors:
         # split / restart / cancel schedule
         segs = _composition(rng, n, int(rng.randint(1, 5)))
         seg_ids = []
